@@ -1,0 +1,169 @@
+//go:build verif
+
+package errors
+
+// Contracts for the deductive verifier in /verif (govc). Comments only.
+// The spec functions specHint, specDetail, ... (outermost decoration along the
+// wrap chain) are defined in /verif/spec/00_prelude.spec.
+
+//@ func WithCode
+//@   props C17 C04
+//@   ensures [nil-passthrough] err == nil ==> result == nil
+//@   ensures [wraps] err != nil ==> (typeis(result, "*perr.withCode") && fresh(val(result)) && cast(result, "*perr.withCode").cause == err && cast(result, "*perr.withCode").code == code)
+//@   modifies nothing
+
+//@ func (*withCode).Unwrap
+//@   props C17 C04
+//@   requires w != nil
+//@   ensures result == w.cause
+//@   modifies nothing
+
+//@ func (*withCode).Error
+//@   props C17 C04
+//@   requires w != nil && w.cause != nil
+//@   ensures result == errtext(w.cause)
+//@   modifies nothing
+
+//@ func WithSeverity
+//@   props C17 C04
+//@   ensures [nil-passthrough] err == nil ==> result == nil
+//@   ensures [wraps] err != nil ==> (typeis(result, "*perr.withSeverity") && fresh(val(result)) && cast(result, "*perr.withSeverity").cause == err && cast(result, "*perr.withSeverity").severity == severity)
+//@   modifies nothing
+
+//@ func (*withSeverity).Unwrap
+//@   props C17 C04
+//@   requires w != nil
+//@   ensures result == w.cause
+//@   modifies nothing
+
+//@ func (*withSeverity).Error
+//@   props C17 C04
+//@   requires w != nil && w.cause != nil
+//@   ensures result == errtext(w.cause)
+//@   modifies nothing
+
+//@ func WithHint
+//@   props C17 C04
+//@   ensures [nil-passthrough] err == nil ==> result == nil
+//@   ensures [wraps] err != nil ==> (typeis(result, "*perr.withHint") && fresh(val(result)) && cast(result, "*perr.withHint").cause == err && cast(result, "*perr.withHint").hint == hint)
+//@   modifies nothing
+
+//@ func (*withHint).Unwrap
+//@   props C17 C04
+//@   requires w != nil
+//@   ensures result == w.cause
+//@   modifies nothing
+
+//@ func (*withHint).Error
+//@   props C17 C04
+//@   requires w != nil && w.cause != nil
+//@   ensures result == errtext(w.cause)
+//@   modifies nothing
+
+//@ func WithDetail
+//@   props C17 C04
+//@   ensures [nil-passthrough] err == nil ==> result == nil
+//@   ensures [wraps] err != nil ==> (typeis(result, "*perr.withDetail") && fresh(val(result)) && cast(result, "*perr.withDetail").cause == err && cast(result, "*perr.withDetail").detail == detail)
+//@   modifies nothing
+
+//@ func (*withDetail).Unwrap
+//@   props C17 C04
+//@   requires w != nil
+//@   ensures result == w.cause
+//@   modifies nothing
+
+//@ func (*withDetail).Error
+//@   props C17 C04
+//@   requires w != nil && w.cause != nil
+//@   ensures result == errtext(w.cause)
+//@   modifies nothing
+
+//@ func WithConstraintName
+//@   props C17 C04
+//@   ensures [nil-passthrough] err == nil ==> result == nil
+//@   ensures [wraps] err != nil ==> (typeis(result, "*perr.withConstraint") && fresh(val(result)) && cast(result, "*perr.withConstraint").cause == err && cast(result, "*perr.withConstraint").constraint == constraint)
+//@   modifies nothing
+
+//@ func (*withConstraint).Unwrap
+//@   props C17 C04
+//@   requires w != nil
+//@   ensures result == w.cause
+//@   modifies nothing
+
+//@ func (*withConstraint).Error
+//@   props C17 C04
+//@   requires w != nil && w.cause != nil
+//@   ensures result == errtext(w.cause)
+//@   modifies nothing
+
+//@ func WithSource
+//@   props C17 C04
+//@   ensures [nil-passthrough] err == nil ==> result == nil
+//@   ensures [wraps] err != nil ==> (typeis(result, "*perr.withSource") && fresh(val(result)) && cast(result, "*perr.withSource").cause == err && cast(result, "*perr.withSource").file == file && cast(result, "*perr.withSource").line == line && cast(result, "*perr.withSource").function == function)
+//@   modifies nothing
+
+//@ func (*withSource).Unwrap
+//@   props C17 C04
+//@   requires w != nil
+//@   ensures result == w.cause
+//@   modifies nothing
+
+//@ func (*withSource).Error
+//@   props C17 C04
+//@   requires w != nil && w.cause != nil
+//@   ensures result == errtext(w.cause)
+//@   modifies nothing
+
+//@ func GetCode
+//@   props C17 C04
+//@   ensures [spec] code == specCode(err)
+//@   modifies nothing
+
+//@ func combineCodes
+//@   props C17 C04
+//@   ensures outer == codes.Uncategorized ==> result == inner
+//@   modifies nothing
+
+//@ func GetSeverity
+//@   props C17 C04
+//@   ensures [spec] result == specSeverity(err)
+//@   modifies nothing
+
+//@ func DefaultSeverity
+//@   props C17 C04
+//@   ensures result == (severity == "" ? "ERROR" : severity)
+//@   modifies nothing
+
+//@ func GetHint
+//@   props C17 C04
+//@   ensures [spec] result == specHint(err)
+//@   modifies nothing
+
+//@ func GetDetail
+//@   props C17 C04
+//@   ensures [spec] result == specDetail(err)
+//@   modifies nothing
+
+//@ func GetConstraintName
+//@   props C17 C04
+//@   ensures [spec] result == specConstraint(err)
+//@   modifies nothing
+
+//@ func GetSource
+//@   props C17 C04
+//@   ensures [spec-nil] !specHasSource(err) ==> result == nil
+//@   ensures [spec] specHasSource(err) ==> (result != nil && fresh(result) && result.File == specSrcFile(err) && result.Line == specSrcLine(err) && result.Function == specSrcFunc(err))
+//@   modifies nothing
+
+//@ func Flatten
+//@   props C17 C04
+//@   ensures [nil-internal-fatal] err == nil ==> (result.Code == "XX000" && result.Severity == "FATAL" && result.Message == "unknown error, an internal process attempted to throw an error" && result.Hint == "" && result.Detail == "" && result.ConstraintName == "" && result.Source == nil)
+//@   ensures [code] err != nil ==> result.Code == specCode(err)
+//@   ensures [message] err != nil ==> result.Message == errtext(err)
+//@   ensures [severity] err != nil ==> result.Severity == (specSeverity(err) == "" ? "ERROR" : specSeverity(err))
+//@   ensures [hint] err != nil ==> result.Hint == specHint(err)
+//@   ensures [detail] err != nil ==> result.Detail == specDetail(err)
+//@   ensures [constraint] err != nil ==> result.ConstraintName == specConstraint(err)
+//@   ensures [source-nil] (err != nil && !specHasSource(err)) ==> result.Source == nil
+//@   ensures [source] (err != nil && specHasSource(err)) ==> (result.Source != nil && result.Source.File == specSrcFile(err) && result.Source.Line == specSrcLine(err) && result.Source.Function == specSrcFunc(err))
+//@   modifies nothing
